@@ -236,6 +236,7 @@ var (
 )
 
 func (p *Pool) Get() any {
+	vhook.Point(vhook.KPool, p)
 	p.mu.Lock()
 	if n := len(p.items); n > 0 {
 		x := p.items[n-1]
@@ -255,6 +256,7 @@ func (p *Pool) Put(x any) {
 	if x == nil {
 		return
 	}
+	vhook.Point(vhook.KPool, p)
 	p.mu.Lock()
 	if !p.reg {
 		p.reg = true
